@@ -642,6 +642,17 @@ def counted_push_bounds(prog, b, push):
     from rules.gate import edge_truth
     if push.callee_name() != 'push' or len(push.args) != 2:
         return None
+    # `for i in (lo..hi).rev() { free.push(i) }`
+    pv = strip(push.args[1])
+    if pv.kind == 'load' and tuple(pv.fields()) == ('as:Some', '0') and strip(pv.args[0]).kind == 'call' and strip(pv.args[0]).callee_name() == 'next':
+        from rules.reset import iterator_source
+        nx = strip(pv.args[0])
+        src = iterator_source(b, nx.args[0]) if nx.args else None
+        while src is not None and src.kind == 'call' and src.callee_name() in ('rev', 'into_iter') and src.args:
+            src = strip(src.args[0])
+        if src is not None and src.kind == 'agg' and src.extra.get('path', '').endswith('Range') and len(src.args) == 2:
+            return (strip(src.args[0]), strip(src.args[1]))
+        return None
     loops = b.cfg.loops()
     hs = [h for h, body in loops.items() if push.point[0] in body]
     if len(hs) != 1:
